@@ -25,13 +25,10 @@ import (
 	"testing"
 	"time"
 
-	jose "github.com/go-jose/go-jose/v4"
-
 	"github.com/zitadel/oidc/v3/pkg/op"
 
 	"verif/harness/engine"
 	"verif/harness/rig"
-	"verif/harness/rig/keys"
 	"verif/harness/rig/refstore"
 )
 
@@ -112,6 +109,37 @@ type part struct {
 	maxFaults  int      // injected storage faults per history
 	faultKinds []string // "err" (opaque storage error) | "deadline" (context.DeadlineExceeded)
 	journals   map[string][]string // storage calls of an approved poll, per "client|scopes" (fault positions)
+	oneScope   bool                // only the first scope set
+}
+
+// refJournals records, per flow kind, the storage calls of an approved poll by the
+// initiator: the positions at which the history search injects a fault.
+func (p *part) refJournals() {
+	p.journals = map[string][]string{}
+	r := p.newRig()
+	for _, cl := range p.daClients {
+		for i, scopes := range scopeSets {
+			if cl == "norefresh" || cl == "ghost" || cl == "web-nocred" || (p.oneScope && i > 0) {
+				continue
+			}
+			if pan := engine.Bubble(p.c.T, 0, func() {
+				r.Core.Reset(refstore.NewState())
+				fl, _ := startFlow(r, p.router, cl, scopes)
+				if fl.DC == "" || r.Core.ApproveDevice(fl.UC, "u1") != nil {
+					return // the search itself reports a refused start
+				}
+				r.Core.Reset(r.Core.St) // clears the journal
+				form := url.Values{"grant_type": {devGrant}, "device_code": {fl.DC}}
+				r.Token(p.router, form, authFor(r, cl, form))
+				for _, call := range r.Core.JournalCopy() {
+					p.journals[cl+"|"+scopes] = append(p.journals[cl+"|"+scopes], call.Method)
+				}
+			}); pan != "" {
+				p.c.Internal("reference journal: " + pan)
+			}
+		}
+	}
+	p.c.Extra("fault-positions-"+p.rn(), p.journals)
 }
 
 func (p *part) rn() string { return rig.Routers[p.router] }
@@ -145,7 +173,7 @@ func (p *part) ops(s S) []string {
 	if len(s.Flows) < p.maxFlows {
 		for _, cl := range p.daClients {
 			for i := range scopeSets {
-				if i > 0 && (cl == "norefresh" || cl == "ghost" || cl == "web-nocred") {
+				if i > 0 && (cl == "norefresh" || cl == "ghost" || cl == "web-nocred" || p.oneScope) {
 					continue
 				}
 				for _, ch := range p.channels() {
@@ -528,7 +556,11 @@ func (p *part) devAuth(r *rig.Rig, s *S, who, scopes, ch string) engine.Result {
 		// nor obliges the provider to read parameters from the URL query: Either
 		if who == "web-nocred" || ch != "b" {
 			if len(s.St.Devices) != nDev {
-				return engine.Bad(rule, o, "C16/devauth-stored-but-refused/"+rn+"/"+strings.TrimPrefix(cs+"/nocred", "/"), "refused request left a device record")
+				class := strings.TrimPrefix(cs, "/")
+				if who == "web-nocred" {
+					class = "nocred" + cs
+				}
+				return engine.Bad(rule, o, "C16/devauth-stored-but-refused/"+rn+"/"+class, "refused request left a device record")
 			}
 			return engine.OK(rule, o)
 		}
@@ -763,7 +795,9 @@ func TestCheck(t *testing.T) {
 		p := &part{c: c, router: router,
 			daClients: engine.Pick(c, []string{"web", "pub", "norefresh", "ghost"}, []string{"web", "pub", "webjwt", "jwt", "norefresh", "ghost", "web-nocred"}),
 			maxFlows:  2, users: []string{"u1", "u2"},
-			near: c.Thorough(), slow: true, extraWho: c.Thorough()}
+			near: c.Thorough(), slow: true, extraWho: c.Thorough(),
+			chans: chans, maxFaults: 1, faultKinds: engine.Pick(c, []string{"err"}, []string{"err", "deadline"})}
+		p.refJournals()
 		engine.RunE2(c, engine.E2[S]{
 			Part:      "hist-" + rig.Routers[router],
 			Init:      S{St: refstore.NewState()},
@@ -786,6 +820,22 @@ func TestCheck(t *testing.T) {
 				Ops: p.ops, NewStep: p.newStep, Canon: canon, MaxDepth: 14, MaxStates: 600000,
 			})
 		}
+		// two storage faults per history (one flow kind per client kind, one user: the fault positions are the subject)
+		for router := 0; router < 2; router++ {
+			if !want("fault2-" + rig.Routers[router]) {
+				continue
+			}
+			p := &part{c: c, router: router, daClients: []string{"web", "pub", "jwt"}, maxFlows: 2, users: []string{"u1"},
+				maxFaults: 2, faultKinds: []string{"err", "deadline"}, oneScope: true}
+			p.refJournals()
+			engine.RunE2(c, engine.E2[S]{
+				Part: "fault2-" + rig.Routers[router], Init: S{St: refstore.NewState()},
+				Ops: p.ops, NewStep: p.newStep, Canon: canon, MaxDepth: 14, MaxStates: 600000,
+			})
+		}
+	}
+	if want("callers") {
+		runCallers(c)
 	}
 	if want("format") {
 		runFormat(c)
